@@ -1,6 +1,6 @@
 (* C15 -- Gaussian intervals use a group's own calibration if big enough, else its parent. *)
 From Coq Require Import ZArith QArith Qminmax List Bool String.
-From Elex Require Import Base.Frame Model.GaussAssign Proofs.GaussAssignProofs.
+From Elex Require Import Base.Frame Base.Loss Model.GaussAssign Model.WMedian Proofs.GaussAssignProofs Proofs.WMedianProofs.
 Import ListNotations.
 
 (* for every group structure (groups with 0, few or many calibration units, groups present only among nonreporting units,
@@ -56,3 +56,33 @@ Theorem C15_reported_bound_ordered : forall (ul uu wsum pl pu vn rest : Q),
   (ul - pl <= uu + pu)%Q -> (reported_bound false ul wsum pl vn rest <= reported_bound true uu wsum pu vn rest)%Q.
 Proof. exact reported_bound_ordered. Qed.
 Print Assumptions C15_reported_bound_ordered.
+
+(* the centre of a calibration group (math_utils.weighted_median on the group's scores, weights = baseline + 1 divided by their
+   sum; compared with mu_lower_bound / mu_upper_bound of every captured model row by check_wmedian): whatever the order of the
+   rows, for positive total weight it is defined, has at most half of the weight strictly below it and at most half strictly
+   above it, and therefore minimises the weighted absolute deviation of the group's scores *)
+Theorem C15_centre_is_weighted_median : forall l : list obs, nonneg l -> (0 < total l)%Q ->
+  exists m, weighted_median l = Some m /\ (2 * below l m <= total l)%Q /\ (2 * above l m <= total l)%Q.
+Proof. exact weighted_median_wmed. Qed.
+Print Assumptions C15_centre_is_weighted_median.
+
+Theorem C15_centre_minimises_deviation : forall l : list obs, nonneg l -> (0 < total l)%Q ->
+  exists m, weighted_median l = Some m /\ forall b, (loss l m <= loss l b)%Q.
+Proof. exact weighted_median_minimises. Qed.
+Print Assumptions C15_centre_minimises_deviation.
+
+(* the variance inflation (math_utils.compute_inflate on the baselines of the calibration group; compared by check_inflate):
+   sum of squares <= square of the sum <= n times the sum of squares, hence a number in [1/n, 1] *)
+Theorem C15_inflation_bounds : forall w : list Q, (forall x, In x w -> (0 <= x)%Q) ->
+  (ssq w <= qsum w * qsum w)%Q /\ (qsum w * qsum w <= inject_Z (Z.of_nat (List.length w)) * ssq w)%Q /\
+  ((0 < qsum w)%Q -> (0 <= inflate w)%Q /\ (inflate w <= 1)%Q).
+Proof.
+  intros w H. split; [exact (ssq_le_sq w H)|]. split; [exact (sq_le_n_ssq w)|].
+  intros P. split; [exact (inflate_nonneg w P) | exact (inflate_le_one w H P)].
+Qed.
+Print Assumptions C15_inflation_bounds.
+
+Example C15_centre_example :
+  weighted_median [(1, 1); (2, 2); (3, 3)]%Q = Some (5 # 2)%Q /\ weighted_median [(3, 1); (1, 2)]%Q = Some 1%Q
+  /\ weighted_median [(1, 3); (1, 1); (2, 2)]%Q = Some 2%Q.
+Proof. vm_compute. auto. Qed.
